@@ -472,6 +472,76 @@ func runC11(c *core.Ctx) {
 	c.Obs("reused_objects_follow_in_place_changes", reuseOK)
 	c.Obs("read_only_calls_left_signed_bytes_alone", readOnlyOK)
 	c.Obs("absent_collections_roundtrip", nilOK)
+	c11SignsOnlyValidJSON(c, keys[0])
+}
+
+// c11SignsOnlyValidJSON: whatever envelope the library puts a signature on carries a payload that
+// is a valid JSON document. Envelopes written by hand whose payload has a control character as it
+// is inside a string (no JSON parser accepts that): the loader may refuse them (that is C12's
+// subject); if it takes one, Sign and Dump, and the payload of the written file is judged by
+// encoding/json.
+func c11SignsOnlyValidJSON(c *core.Ctx, key gen.KeyPair) {
+	if c.Shard != 5%c.NShards {
+		return
+	}
+	refused, valid := int64(0), int64(0)
+	for ci, ctrl := range []string{"\n", "\t", "\r", "\x01", "\x1f", "\x0b"} {
+		for _, where := range []string{"stdout", "artifact-name", "readme"} {
+			id := fmt.Sprintf("hand-written-envelope/%d/%s", ci, where)
+			if !c.Want(id) {
+				continue
+			}
+			var payload string
+			switch where {
+			case "stdout":
+				payload = `{"_type":"link","name":"s","materials":{},"products":{},"byproducts":{"return-value":0,"stderr":"","stdout":"a` + ctrl + `b"},"command":[],"environment":{}}`
+			case "artifact-name":
+				payload = `{"_type":"link","name":"s","materials":{},"products":{"a` + ctrl + `b":{"sha256":"` + strings.Repeat("ab", 32) + `"}},"byproducts":{},"command":[],"environment":{}}`
+			default:
+				payload = `{"_type":"layout","steps":[],"inspect":[],"keys":{},"expires":"2999-01-01T00:00:00Z","readme":"a` + ctrl + `b"}`
+			}
+			env := map[string]any{"payloadType": "application/vnd.in-toto+json", "payload": base64.StdEncoding.EncodeToString([]byte(payload)), "signatures": []any{}}
+			eb, _ := json.Marshal(env)
+			file := filepath.Join(c.WorkDir, "c11-hand-written.json")
+			os.WriteFile(file, eb, 0644)
+			c.Begin(id)
+			md, err := intoto.LoadMetadata(file)
+			c.Eval(1)
+			if err != nil {
+				c.End(id)
+				refused++
+				c.Class("hand-written-envelope", "refused", where)
+				continue
+			}
+			serr := md.Sign(key.Priv)
+			out := filepath.Join(c.WorkDir, "c11-hand-written-out.json")
+			derr := md.Dump(out)
+			c.End(id)
+			if serr != nil || derr != nil {
+				refused++
+				c.Class("hand-written-envelope", "not-signed", where)
+				continue
+			}
+			raw, _ := os.ReadFile(out)
+			var e2 struct {
+				Payload    string `json:"payload"`
+				Signatures []any  `json:"signatures"`
+			}
+			json.Unmarshal(raw, &e2)
+			pb, perr := base64.StdEncoding.DecodeString(e2.Payload)
+			if perr != nil {
+				pb, _ = base64.URLEncoding.DecodeString(e2.Payload)
+			}
+			if len(e2.Signatures) > 0 && !json.Valid(pb) {
+				c.Violation("the library put a signature on an envelope whose payload is not a valid JSON document (loaded from a hand-written file with a control character as it is inside a string)", id, map[string]any{"control_character": fmt.Sprintf("%q", ctrl), "where": where, "payload_signed": string(pb)})
+			} else {
+				valid++
+				c.Class("hand-written-envelope", "signed-valid", where)
+			}
+		}
+	}
+	c.Obs("hand_written_invalid_payloads_refused_or_not_signed", refused)
+	c.Obs("hand_written_payloads_signed_as_valid_json", valid)
 }
 
 // c11Edit is a change made in place (inside a map or slice the first payload shares) after the
